@@ -5,7 +5,7 @@ import onnx
 
 from rten_convert.errors import ConversionError
 from rten_convert.graph import ConstantNode, Node
-from rten_convert.util import warn_once
+from rten_convert.util import int64_to_int32, warn_once
 
 
 class AttributeReader:
@@ -181,7 +181,7 @@ class AttributeReader:
         match attr_type:
             case "int":
                 shape = []
-                data = np.array(attr_val).astype(np.int32)
+                data = int64_to_int32(attr_val)
 
             case "float":
                 shape = []
@@ -189,7 +189,7 @@ class AttributeReader:
 
             case "ints":
                 shape = [len(attr_val)]
-                data = np.array([attr_val]).astype(np.int32)
+                data = int64_to_int32([attr_val])
 
             case "floats":
                 shape = [len(attr_val)]
